@@ -153,7 +153,8 @@ func Harness_C02_session() {
 		Status: models.MappingStatusActive, Protocol: models.ProtocolUDP, TargetHost: "127.0.0.1", TargetPort: 53,
 		Config: configs.MappingConfig{BandwidthLimit: limit}}}})
 	sm.SetTunnelHandler(s02Tunnels{})
-	routing := NewTunnelRoutingTable(memory.New(ctx), time.Minute)
+	routingStore := memory.New(ctx)
+	routing := NewTunnelRoutingTable(routingStore, time.Minute)
 	sm.SetTunnelRoutingTable(routing)
 
 	nS, nT := verif_IntRange(0, verif_Bound("payload")), verif_IntRange(0, verif_Bound("payload"))
@@ -161,8 +162,9 @@ func Harness_C02_session() {
 	dT, cT := s02Script(nT)
 	// 0: the source ends after its data, 1: the target does, 2: the harness closes the source
 	// after quiescence, 3: the target client never attaches, 4: the bridge is closed (source gone,
-	// shutdown) while it still waits for the target
-	ender := verif_Choose(5)
+	// shutdown) while it still waits for the target, 5: the whole node shuts down (its session
+	// manager is closed, its context cancelled) while the tunnel waits for the target
+	ender := verif_Choose(6)
 
 	src := newS02End("src", dS, cS, ender == 0)
 	tunnelID, err := sm.StartServerTunnel("pm1", src)
@@ -185,10 +187,20 @@ func Harness_C02_session() {
 		verif_Assert("C02s.closed_while_waiting.no_longer_routable", werr3 != nil)
 		verif_Cover("C02s.closed_while_waiting")
 	}
+	if ender == 5 {
+		sm.Close()
+		verif_Quiesce()
+		// another node, asking the shared store with its own live context, must not be sent to the
+		// node that is gone
+		other := NewTunnelRoutingTable(routingStore, time.Minute)
+		_, werr4 := other.LookupWaitingTunnel(ctx, tunnelID)
+		verif_Assert("C02s.node_shutdown.no_longer_routable", werr4 != nil)
+		verif_Cover("C02s.node_shutdown")
+	}
 
 	dst := newS02End("dst", dT, cT, ender == 1)
 	ackLen := 0
-	if ender != 3 && ender != 4 {
+	if ender < 3 {
 		_, cerr := sm.CreateConnection(dst, dst)
 		verif_Assert("C02s.setup.conn", cerr == nil)
 		hs, _ := json.Marshal(&packet.HandshakeRequest{ClientID: 1002, ConnectionType: "tunnel"})
@@ -205,7 +217,7 @@ func Harness_C02_session() {
 
 	gotT, closedT := dst.snapshot()
 	gotS, closedS := src.snapshot()
-	if ender != 3 && ender != 4 {
+	if ender < 3 {
 		verif_Assert("C02s.ack_intact", len(gotT) >= ackLen)
 		gotT = gotT[ackLen:]
 	}
@@ -223,7 +235,7 @@ func Harness_C02_session() {
 		time.Sleep(time.Hour)
 		verif_Quiesce()
 		verif_Cover("C02s.open_then_closed")
-	case 3, 4:
+	case 3, 4, 5:
 		// nobody came within the 30 s window / the bridge was closed first: the source is released
 		verif_Assert("C02s.no_target.nothing_sent", len(gotT) == 0)
 		verif_Cover("C02s.no_target")
@@ -231,7 +243,7 @@ func Harness_C02_session() {
 	_, closedT = dst.snapshot()
 	_, closedS = src.snapshot()
 	verif_Assert("C02s.source_closed", closedS)
-	verif_Assert("C02s.target_closed", ender == 3 || ender == 4 || closedT)
+	verif_Assert("C02s.target_closed", ender >= 3 || closedT)
 	sm.bridgeLock.RLock()
 	_, still := sm.tunnelBridges[tunnelID]
 	n := len(sm.tunnelBridges)
